@@ -4,6 +4,7 @@ import (
 	"bufio"
 	"encoding/json"
 	"fmt"
+	"io"
 	"math/rand"
 	"os"
 	"runtime/debug"
@@ -331,6 +332,32 @@ func deepRun(args []string) error {
 			continue
 		}
 		var in string
+		if args[1] == "nestedtrace" {
+			// the same nested input with the Trace option on: it must make no difference to the outcome
+			if e.nested == nil {
+				fmt.Println("skip")
+				return nil
+			}
+			in = e.nested(n)
+			plain := checkOutcome(e, in)
+			traced := runGuarded(func() (res string) {
+				defer func() {
+					if r := recover(); r != nil {
+						res = fmt.Sprintf("panic %v", r)
+					}
+				}()
+				_, err := e.parse("fn", in, participle.Trace(io.Discard))
+				if err != nil {
+					return "err " + err.Error()
+				}
+				return "ok"
+			})
+			if traced != plain {
+				traced = "with Trace: " + traced + "; without: " + plain
+			}
+			fmt.Printf("%s\t%s\t%d\t%s\n", e.name, args[1], n, traced)
+			return nil
+		}
 		if args[1] == "nested" {
 			if e.nested == nil {
 				fmt.Println("skip")
